@@ -396,6 +396,10 @@ package common
 //@   ensures (err != nil) == v_wcred_err(v)
 //@   ensures err == nil ==> r == v_wcred(v)
 
+// Assumption used by the withdrawal contracts (capella): reading a field of a validator view does not fail (the view is
+// over a well-formed registry subtree; the withdrawal predicates panic on such an error).
+//@ axiom val_views_readable [manual]: forall v ValI :: {v_wcred_err(v)} {v_wd_err(v)} {v_eb_err(v)} !v_wcred_err(v) && !v_wd_err(v) && !v_eb_err(v)
+
 // ValidatorSet.Filter keeps, in order, the elements the callback retains (the callback is assumed pure).
 //@ func (vs *ValidatorSet) Filter(retain) err
 //@   property C12
@@ -802,7 +806,8 @@ package common
 //@ ghost viter_pos int
 //@ ghost viter_reg RegI
 //@ ufun reg_len(RegI) int
-//@ axiom reg_len_nonneg [manual]: forall r RegI :: {reg_len(r)} reg_len(r) >= 0
+// (list limit VALIDATOR_REGISTRY_LIMIT = 2^40)
+//@ axiom reg_len_nonneg [manual]: forall r RegI :: {reg_len(r)} reg_len(r) >= 0 && reg_len(r) <= 1099511627776
 //@ func (r ValidatorRegistry) Iter() next
 //@   trusted
 //@   opt returns_contract=validatorIterNext
@@ -1284,6 +1289,7 @@ package common
 //@   assigns ghost(n_biter), ghost(biter_pos), ghost(biter_reg), ghost(n_set_eb)
 //@   assigns ghost(n_set_wcred), ghost(set_wcred_v), ghost(set_wcred_val)
 //@   assigns ghost(n_set_bal)
+//@   assigns ghost(n_set_nwi), ghost(set_nwi), ghost(n_set_nwvi), ghost(set_nwvi)
 //@   assigns ghost(n_eth1_reset), ghost(n_slash_reset), ghost(last_slash_reset), ghost(n_set_mix), ghost(last_set_mix_epoch), ghost(last_set_mix), ghost(n_hist_update)
 //@   assigns ghost(n_set_mix), ghost(last_set_mix_epoch), ghost(last_set_mix)
 //@   assigns ghost(n_set_lhdr), ghost(set_lhdr)
@@ -1310,6 +1316,7 @@ package common
 //@   ensures c03_signature: old(benv != nil && epc != nil && epc.ValidatorPubkeyCache != nil && (forall r PcPtr :: {pctrig(r)} pctrig(r) && alloc(r) ==> pc_local(r.pub2idx, r.idx2pub, r.trustedParentCount) && pc_chain(r.parent, r, r.trustedParentCount, r.parent.trustedParentCount, len(r.parent.idx2pub))) && (forall r PcPtr :: {held(r.rwLock)} held(r.rwLock) == 0)) && validateResult && err == nil ==> (exists pk Pub48T :: block_sig_ok(old(benv.ProposerIndex), epc_proposer(epc, old(benv.Slot)), old(benv.ForkDigest), old(benv.BlockRoot), old(benv.Signature), pk, DOMAIN_BEACON_PROPOSER, st_forkdata(state).CurrentVersion, st_gvr(state)))
 //@   assigns ghost(n_set_wcred), ghost(set_wcred_v), ghost(set_wcred_val)
 //@   assigns ghost(n_set_bal)
+//@   assigns ghost(n_set_nwi), ghost(set_nwi), ghost(n_set_nwvi), ghost(set_nwvi)
 //@   assigns ghost(n_set_mix), ghost(last_set_mix_epoch), ghost(last_set_mix)
 //@   assigns ghost(n_set_lhdr), ghost(set_lhdr)
 //@   assigns ghost(n_viter), ghost(viter_pos), ghost(viter_reg), ghost(n_val_write), ghost(n_set_exit), ghost(set_exit_v), ghost(set_exit_val), ghost(n_set_wd), ghost(set_wd_v), ghost(set_wd_val)
